@@ -234,3 +234,5 @@ func kfBracketQuote(text string, off int) bool {
 	}
 	return false
 }
+
+func refmodelOffset(text string, line, ch int) (int, bool) { return refmodel.OffsetOf(text, line, ch) }
